@@ -559,11 +559,8 @@ Section FinalTgt.
     intros [x0 HlD] HinD Hbot Ej. set (wj := world_after c m w) in *.
     pose proof (wok_after U c U_id U_uniq U_up D_decl m w HW) as HWj. fold wj in HWj.
     destruct (join_try_some c wj lowest (fev bn) burst Ej) as (_ & _ & Hrd).
-    assert (Hb : hub_through_cursor (h_f (w_hub wj)) (bnum bn) cu = BOk burst).
-    { unfold join_try in Ej. rewrite Hmode, Hcur in Ej. cbn [N.eqb Pos.eqb orb] in Ej.
-      destruct ((lowest <=? bnum (eblk (fev bn))) && matches_new (estep (fev bn))); [|discriminate]. cbn [eblk file_event] in Ej.
-      destruct (hub_through_cursor (h_f (w_hub wj)) (bnum bn) cu) as [evs| | |]; try discriminate.
-      rewrite Hrd in Ej. cbn [andb] in Ej. injection Ej as <-. reflexivity. }
+    assert (Hb : hub_through_cursor (h_f (w_hub wj)) (bnum bn) cu = BOk burst)
+      by exact (proj1 (join_try_target c wj lowest (fev bn) cu burst Hmode Hcur Ej)).
     destruct (g_lokx_of_world U c U_id U_uniq U_up D_decl wj HWj Hrd) as (a & Fin & A & V & HLX & HX).
     destruct (through_irr U c canon w U_id U_uniq U_up D_decl HcU Hcl Htip wj m a Fin A V (bnum bn) cu burst eq_refl HLX HX Hfc Hb) as [Hirr2 Hirr1].
     set (Lj := libblk a Fin) in *.
